@@ -124,8 +124,24 @@ JudgeFix(o1, o2) ==
   ELSE IF o2.outcome # "ok" THEN <<"re-preprocessing the output fails", o2.outcome, ToString(o2.err)>>
   ELSE IF ObsToks(o1) # ObsToks(o2) THEN <<"re-preprocessing the output changes it (token level)">> ELSE <<>>
 
+\* C09, breadth: the real run used the program shape of r.env with every sibling group repeated r.k times instead of
+\* twice (k + k*k files opened at nesting level 2).  Nesting depth does not depend on the multiplicity of siblings
+\* (MC_PreprocInc: DepthBounded over graphs with repeated edges), so the outcome must be the specification's outcome
+\* for the small shape; the number of tokens scales with the multiplicities (r.leaf tokens per leaf file, r.tail behind).
+JudgeShape(r) ==
+  LET st == Run(r.env) IN
+  IF r.obs.outcome \notin {"ok", "err"} THEN <<"outcome " \o r.obs.outcome \o " is not Ok or a structured Error">>
+  ELSE IF st.status = "err" THEN
+        (IF r.obs.outcome # "err" THEN <<"expected error, library returned Ok", ToString(st.err)>>
+         ELSE IF r.obs.err # st.err THEN <<"error differs", ToString(st.err), ToString(r.obs.err)>> ELSE <<>>)
+  ELSE IF r.obs.outcome # "ok" THEN <<"expected Ok, library returned error", ToString(r.obs.err)>>
+  ELSE IF Len(st.out) # 4 * r.leaf + r.tail THEN <<"shape record is not the 2 x 2 shape it claims to be", ToString(Len(st.out))>>
+  ELSE IF r.ntoks # r.k * r.k * r.leaf + r.tail THEN <<"token count differs", ToString(r.k * r.k * r.leaf + r.tail), ToString(r.ntoks)>>
+  ELSE <<>>
+
 Judge(r) ==
   CASE r.kind = "run"    -> JudgeRun(r.env, r.obs, r.org)
+    [] r.kind = "shape"  -> JudgeShape(r)
     [] r.kind = "strip"  -> IF Dev = {} THEN JudgeStripRel(r.obs, r.obs2)
                             ELSE JudgeRun(r.env, r.obs, FALSE) \o JudgeRun([r.env EXCEPT !.strip = TRUE], r.obs2, FALSE)
     [] r.kind = "concat" -> JudgeConcat(r.obs, r.obs2, r.obs3)
